@@ -82,6 +82,18 @@ Theorem C13_enabled_still_delivered : forall enabled (mid : nat -> N) (p : prog)
   /\ native_calls enabled p = restrict_calls enabled unfiltered.
 Proof. exact enabled_still_delivered_proof. Qed.
 
+(** the same in one equation, for hosts configured with a metadata predicate: what the filtering host
+    sees natively is the tunnelled trace with the spans and events it disables taken out (and the
+    remaining spans renumbered), up to the spelling of explicit roots.  [restrict_hcalls pred]
+    removes from a host trace every [HNewSpan] / [HEvent] whose metadata [pred] rejects and every
+    call about such a span. *)
+Theorem C13_enabled_subtrace : forall (pred : cs_data -> bool) (mid : nat -> N) (p : prog),
+  (forall a b, mid a = mid b -> a = b) ->
+  wf_prog_b p = true -> (spans_created (p_ops p) <= U32 - 1)%N ->
+  map unroot (strip_reg (normalise (p_sites p) (native_calls (site_enabled pred (p_sites p)) p)))
+  = map unroot (restrict_hcalls pred (strip_reg (tunnel_calls mid p))).
+Proof. exact enabled_subtrace_proof. Qed.
+
 (** the restriction, for every well-formed program by itself *)
 Theorem C13_filtered_trace_is_restriction : forall enabled p,
   wf_prog_b p = true ->
@@ -101,7 +113,8 @@ Proof. exact enabled_items_delivered_proof. Qed.
 
 (** ** non-vacuity: a host limited to DEBUG enables everything of the witness program (outside the
     class, equal traces, non-empty); a host limited to INFO disables its DEBUG span (inside the
-    class): natively 8 calls, 12 through the tunnel, and the native trace is the restriction *)
+    class): natively 5 calls besides registrations, 9 through the tunnel; the native trace is the
+    restriction of the unfiltered one and of the tunnelled one *)
 Example C13_example :
   let debug := site_enabled (eval_filter (FMaxLevel LDebug)) wit_sites in
   known_host_filter debug wit_filter = false
@@ -112,5 +125,7 @@ Example C13_example :
   /\ List.length (strip_reg (tunnel_calls_under wit_info_only N.of_nat wit_filter)) = 9%nat
   /\ native_calls wit_info_only wit_filter
      = restrict_calls wit_info_only (native_calls all_enabled wit_filter)
+  /\ strip_reg (normalise wit_sites (native_calls wit_info_only wit_filter))
+     = restrict_hcalls (eval_filter (FMaxLevel LInfo)) (strip_reg (tunnel_calls N.of_nat wit_filter))
   /\ eval_filter (FAnd (FTargetPrefix "app::") (FNot FIsSpan)) (nth 1 wit_sites cs_none) = false.
 Proof. vm_compute. repeat split. Qed.
